@@ -12,6 +12,10 @@ THEOREMS = [
     "Remoc.Link.closed_enables_fail",
     "Remoc.Link.close_keeps_completed",
     "Remoc.Link.finv_step",
+    "Remoc.Link.relay_forwarded_prefix",
+    "Remoc.Link.relay_exact",
+    "Remoc.Link.relay_complete",
+    "Remoc.Link.rinvariant_step",
 ]
 RULE = ("port level, exact mode: streams of whole sends / try-sends / chunk streams with a receiver close, receiver drop, sender "
         "drop or close-then-drop at every position (also with a chunked message open), the notification delivered to the sender "
@@ -26,12 +30,15 @@ TRUSTED_BASE = [
     "M_link (close / dropReceiver / dropSender labels, the notification FIFO `back`, SendFinish in the data FIFO)",
     "credit returns deferred by a full event queue may be overtaken by a close notification: the driver reorders the model's FIFO accordingly",
     "harness world and lean/Driver/Link.lean",
+    "the relay model forwards whole messages (`relayStart` = Sender::send of a received message); chmux::forward relays large messages chunk by chunk and forwards port requests by opening new ports: those two paths are tied to the code by the link-forward scripts (predicates) and the C05 wiring harness only",
 ]
 ASSUMPTIONS = ["single-threaded paused runtime; override_graceful_close is not modelled"]
 LEVEL_TEXT = ("Lean 4 theorems over M_link for every schedule with close/drop at any position: end-of-stream is reported only "
               "after every emitted frame was consumed, hence after every completed send was obtained; C01's exactness and "
               "completeness hold regardless of close/drop; ReceiveClose closes the sender gracefully, ReceiveFinish non-gracefully, "
-              "the first wins; once closed no credits can be obtained and pending/later operations fail. Tied to the code by exact "
+              "the first wins; once closed no credits can be obtained and pending/later operations fail. Across a port forwarder "
+              "(chmux::forward at message granularity, composed of two M_link instances): what the forwarder completed downstream is a "
+              "prefix of what it received, the destination obtains a prefix of the origin's completed sends and all of them at quiescence. Tied to the code by exact "
               "replay of close/drop scenarios on the model and classification/end-of-stream predicates on the real runs.")
 LEVEL_NOTE = ("Typed channels are covered by correspondence runs only (no theorems); 'eventually observable' assumes a healthy "
               "transport and scheduler fairness.")
